@@ -1,6 +1,7 @@
 //! C08 — projection matrices map the view volume onto the canonical clip volume.
 
 mod regime;
+mod ulps;
 
 use vek::geom::FrustumPlanes;
 use vek::mat::repr_c::column_major as cm;
@@ -258,15 +259,17 @@ pub fn property() -> Property {
     tape!("perspective-cols-f64", p, 64, 20_000, 500_000, persp_cols::<f64>);
     tape!("perspective-rows-f32", p, 64, 20_000, 500_000, persp_rows::<f32>);
     checks.extend(regime::checks());
+    checks.extend(ulps::checks());
     Property {
         id: "C08",
-        rule: "planes generated as centre +- half-width (centre 0 in ~15% of cases, otherwise off-centre by up to 7 half-widths; orthographic planes also reversed and with negative depth values), near/far positive with far/near in (1, 61] (frustum: also far < near); fields of view as registered angles in (0, pi), rational aspect and viewport sizes; non-trivial = off-centre in x and y, near != 1, far/near not a power of two (perspective: aspect != 1); distinct = distinct consumed tape prefix. regime-* checks: each axis (x planes, y planes, depth planes) is an interval from {ordinary, one plane 2^-1 .. 2^-(mantissa+4) of the other, width << offset (conditioning up to 2^10 f32 / 2^38 f64), off-centre by 2^-1..2^-(mantissa+2) of the width (Rat: 2^-42), one plane at 0, centred} x {reversed}, then scaled exactly by 2^k: k = 0 for all axes (1/8), one k for all lengths (1/2) or one k per axis (3/8; narrow / wide frusta), |k| stratified up to 96 (f32) / 960 (f64) / 56 (Rat) for the orthographic family and 45 / 450 / 20 where far*near is formed; frustum / perspective depth from {ordinary (1/4), far/near - 1 down to 2^-9 / 2^-37 (1/8), far/near up to 2^20 / 2^50 at any unit (1/4), far/near extreme (3/8): 2^20 .. 2^100 (f32) / 2^50 .. 2^900 (f64) / 2^20 .. 2^48 (Rat), a quarter of them within 2^-2 .. 2^6 of 1/eps, with the unit of length such that near * far ~ 1 and (frustum) the x, y planes at the scale of the near plane} x {far < near (frustum, 1/8)}; fields of view from {uniform in (0.05, pi-0.05), log-uniform 2^-3 .. 2^-32 (f32) / 2^-300 (f64) rad, pi - 2^-j, round numbers of degrees 0.001 .. 179.9}, aspect 2^+-30 / 2^+-100 (beyond 1/eps), viewport sizes 2^+-60 / 2^+-200; non-trivial = off-centre in x and y (ortho: near != 0; perspective: aspect != 1)",
+        rule: "planes generated as centre +- half-width (centre 0 in ~15% of cases, otherwise off-centre by up to 7 half-widths; orthographic planes also reversed and with negative depth values), near/far positive with far/near in (1, 61] (frustum: also far < near); fields of view as registered angles in (0, pi), rational aspect and viewport sizes; non-trivial = off-centre in x and y, near != 1, far/near not a power of two (perspective: aspect != 1); distinct = distinct consumed tape prefix. regime-* checks: each axis (x planes, y planes, depth planes) is an interval from {ordinary, one plane 2^-1 .. 2^-(mantissa+4) of the other, width << offset (conditioning up to 2^10 f32 / 2^38 f64), off-centre by 2^-1..2^-(mantissa+2) of the width (Rat: 2^-42), one plane at 0, centred} x {reversed}, then scaled exactly by 2^k: k = 0 for all axes (1/8), one k for all lengths (1/2) or one k per axis (3/8; narrow / wide frusta), |k| stratified up to 96 (f32) / 960 (f64) / 56 (Rat) for the orthographic family and 45 / 450 / 20 where far*near is formed; frustum / perspective depth from {ordinary (1/4), far/near - 1 down to 2^-9 / 2^-37 (1/8), far/near up to 2^20 / 2^50 at any unit (1/4), far/near extreme (3/8): 2^20 .. 2^100 (f32) / 2^50 .. 2^900 (f64) / 2^20 .. 2^48 (Rat), a quarter of them within 2^-2 .. 2^6 of 1/eps, with the unit of length such that near * far ~ 1 and (frustum) the x, y planes at the scale of the near plane} x {far < near (frustum, 1/8)}; fields of view from {uniform in (0.05, pi-0.05), log-uniform 2^-3 .. 2^-32 (f32) / 2^-300 (f64) rad, pi - 2^-j, round numbers of degrees 0.001 .. 179.9}, aspect 2^+-30 / 2^+-100 (beyond 1/eps), viewport sizes 2^+-60 / 2^+-200; non-trivial = off-centre in x and y (ortho: near != 0; perspective: aspect != 1). ulps-* checks (f32, f64): a non-empty subset of {x, y, depth} has its two planes 1, 2, 3, 4 or 8 ulps apart (mantissa 3*2^(p-2), bottom of a binade, straddling a power of two, or random; magnitude 2^-4 .. 2^5; either sign and order; frustum depth positive, also far < near), the other axes are short dyadic intervals; perspective family: near / far ulps apart with ordinary fov and aspect; every case non-trivial (perspective: aspect != 1)",
         assumptions: &[
             "rustc and the proptest runner/shrinker are trusted",
             "oracle: validity predicate on the images of the eight corners after the homogeneous divide (reference matrix*vector on plain arrays), plus entry-wise relations between constructors",
             "perspective family only on the debug_assert!ed domain: fov in (0, pi), aspect, width, height, near > 0, far > near",
             "float tolerance 4096*eps*scale with scale from the plane magnitudes / interval widths / far-near ratio",
             "regime-* checks: tolerance 32*eps*cond on the divided (dimensionless) coordinates, cond = (|lo|+|hi|)/|hi-lo| of the axis for x, y and orthographic depth, (far+near)/|far-near| for perspective depth, fov/sin(fov) for x, y of the fov-based constructors (conditioning of 1/tan(fov/2) w.r.t. the angle; 1 for narrow fields of view); entry-wise relations between constructors are compared relative to max(|entry|, floor) (32*eps*cond*that), floor = the magnitude below which the entry cannot move any corner of the view volume by more than the corner tolerance (min over the corners of clip magnitude / |coordinate|), never to 1 + max; cases are generated so that 32*eps*cond <= 2^-7",
+            "ulps-* checks: the corner predicate is NOT asserted (conditioning ~2^mantissa, tolerance above 1); asserted instead, entry-wise: every entry within 8 eps of max(|entry|, floor) of the textbook formula (2/(r-l), -(r+l)/(r-l), 2n/(r-l), f/(f-n), (f+n)/(f-n), -fn/(f-n), -2fn/(f-n), 1/(f-n), -n/(f-n), -(f+n)/(f-n), +-1 in the w row, 0 elsewhere) evaluated exactly in Rat on the given floats and rounded once to f64; this fixes the normalisation the crate documents by its formulas (w row +-1 resp. (0,0,0,1)), which the corner predicate alone would leave free; x / y rows of the perspective family within 32 eps fov/sin(fov) of 1/(aspect tan(fov/2)) evaluated in f64",
             "regime-* checks: the platform tan / sin / cos are taken to be accurate to a few ulps relative to their result for every argument in (0, pi/2) (also next to pi/2); the oracle corner uses tan(fov/2) of the same scalar type",
             "not asserted: lengths outside the normal range or so large / small that the textbook products overflow or underflow (2/(right-left), far*near: |log2 length| > 96+19 f32 / 960+46 f64 for the orthographic family, > 45+25 / 450+55 for frustum / perspective; far/near above 2^100 / 2^900, and far/near above 2^20 / 2^50 at a unit of length where near * far is not ~ 1), subnormal, infinite or NaN planes, far = infinity, fov >= pi (the debug_assert message calls it invalid although the asserted bound is 2 pi), fov within 2^-9 (f32) / 2^-37 (f64) of pi, far/near - 1 below 2^-9 / 2^-37 (loss of all significant bits in far - near's quotient for any implementation); bit-exact covariance under 2^k scaling is deliberately not demanded (a harmless guard at unit scale would violate it without violating the property)",
         ],
